@@ -11,7 +11,7 @@ EXPLANATION = ("static analysis (MIR abstract interpretation): for each pool ope
                "the toggle wires each flag to its same-named field of the same pool; new pools start enabled")
 ASSUMPTIONS = ["single-asset deposits swap through the public Swap message (checked in C14), hence through the swap cut",
                "CosmWasm VM rollback on Err"]
-TECHNIQUE = "static analysis: guard cut-sets per operation, flag-read enumeration, field-agreement of the toggle"
+TECHNIQUE = "static analysis: guard cut-sets per operation, flag-read enumeration, field-agreement of the toggle, per-flag persistence under assumed request shape"
 LEVEL_TEXT = ("For every way of swapping / depositing / withdrawing (message variants, router hops, internal self-calls are public "
               "messages) all paths to an effect cross the matching status flag's true edge read from the same pool key; each flag is "
               "read only by its own operation; exhaustive over paths and variants.")
